@@ -12,7 +12,7 @@ the clearing statements stand).
 
 Event sequences are arbitrary lists — not only well-bracketed ones — so the
 theorems also cover a second `_serve_request` running concurrently (the
-N-EVENT-REPORT thread of `receive_primitive`) and queries made outside any
+N-EVENT-REPORT thread of `receive_primitive`, should it clear the store) and queries made outside any
 operation.
 -/
 namespace PynetVerif
@@ -286,11 +286,47 @@ theorem C23_recv_idempotent (s : S) (id : Nat) : (recv (recv s id) id).store = (
 /-- What the translator reads in the current source: the guard is
 `len(self.cancel_req) < 10`, and in `_serve_request` the store is emptied
 immediately before and immediately after the service class call (with only the
-pause flag in between), nowhere else, and not on the exception paths. -/
+two writes of the pause flag in between), nowhere else, and not on the exception paths — both
+times under the test `not isinstance(msg, N_EVENT_REPORT)`, N-EVENT-REPORT being
+the one class `receive_primitive` serves in a thread of its own. -/
 theorem C23_bound_and_clear_sites :
     Gen.Cancel.bound = some Cancel.bound ∧ Gen.Cancel.cmp = "Lt" ∧
-    Gen.Cancel.serveTry = ["clear", "other", "scp", "other", "clear"] ∧
+    Gen.Cancel.serveTry = ["clear-if", "pause-if", "scp", "pause-if", "clear-if"] ∧
+    Gen.Cancel.clearGuards = ["not isinstance(msg, N_EVENT_REPORT)", "not isinstance(msg, N_EVENT_REPORT)"] ∧
+    Gen.Cancel.sideThread = ["N_EVENT_REPORT"] ∧
     Gen.Cancel.handlersTouchStore = false ∧ Gen.Cancel.serveTouches = 2 := by decide
+
+/-- A request of another kind served meanwhile (the N-EVENT-REPORT thread) leaves the pending
+cancels of the operation in progress alone: with the regenerated source facts its whole
+`_serve_request` run contributes no event to the store's history … -/
+theorem C23_side_request_keeps_store :
+    Cancel.sideClears Gen.Cancel.serveTry Gen.Cancel.clearGuards Gen.Cancel.sideThread = false ∧
+    Cancel.sideEvents (Cancel.sideClears Gen.Cancel.serveTry Gen.Cancel.clearGuards Gen.Cancel.sideThread) = [] := by
+  decide
+
+/-- … so completeness holds through any number of such requests: a matching C-CANCEL received with
+room in the store is reported by the next `is_cancelled(id)`, however many side-thread requests were
+served completely in between (`sides` are their positions among the other events `b`). -/
+theorem C23_complete_through_side_requests (a : List Ev) (bs : List (List Ev)) (id : Nat)
+    (hb : ∀ b ∈ bs, keeps id b)
+    (hroom : (exec Cancel.init a).store.length < bound ∨ id ∈ (exec Cancel.init a).store) :
+    answer (exec Cancel.init (a ++ Ev.recvCancel id ::
+      (bs.map (fun b => b ++ Cancel.sideEvents
+        (Cancel.sideClears Gen.Cancel.serveTry Gen.Cancel.clearGuards Gen.Cancel.sideThread))).flatten)) id = true := by
+  apply C23_complete_partial a _ id _ hroom
+  rw [C23_side_request_keeps_store.2]
+  intro e he
+  simp only [List.append_nil, List.map_id', List.mem_flatten] at he
+  obtain ⟨b, hbm, heb⟩ := he
+  exact hb b hbm e heb
+
+/-- The code before its repair cleared unconditionally: the N-EVENT-REPORT thread's run then emptied
+the store under the running operation and the matching cancel was never reported (the failing
+history of the known-findings entry `fixed: C23 … N-EVENT-REPORT`). -/
+theorem C23_side_clear_neg :
+    Cancel.sideClears ["clear", "pause", "scp", "pause", "clear"] [] ["N_EVENT_REPORT"] = true ∧
+    run Cancel.init ([.beginOp 5, .recvCancel 5] ++ Cancel.sideEvents true ++ [.query 5]) = [false] ∧
+    run Cancel.init ([.beginOp 5, .recvCancel 5] ++ Cancel.sideEvents false ++ [.query 5]) = [true] := by decide
 
 -- non-vacuity
 example : keeps 7 [.recvCancel 3, .query 3, .query 9, .recvCancel 7, .endOpRaise] := by
@@ -299,9 +335,8 @@ example : run Cancel.init [.recvCancel 5, .beginOp 5, .query 5, .recvCancel 6, .
     .query 5, .endOp, .query 6, .beginOp 6, .recvCancel 6, .endOpRaise, .query 6]
     = [false, false, true, false, false, true] := by decide
 example : (exec Cancel.init [.beginOp 1, .recvCancel 2, .recvCancel 3]).store.length < bound := by decide
--- a second `_serve_request` interleaved with the operation (the N-EVENT-REPORT thread started by
--- `receive_primitive`) empties the store under the running operation: covered by the model as a
--- `beginOp`/`endOp` pair inside the operation, and excluded from completeness by `keeps`
+-- a second clearing `_serve_request` interleaved with the operation would empty the store under it: the
+-- model covers it as a `beginOp`/`endOp` pair inside the operation (see `C23_side_clear_neg`)
 example : run Cancel.init [.beginOp 5, .recvCancel 5, .beginOp 77, .endOp, .query 5] = [false] := by decide
 example : (([.recvCancel 2, .query 2, .recvCancel 3] : List Ev).filter Ev.isRecv).length < bound := by decide
 
